@@ -70,6 +70,14 @@ func c13TcpSetup() {
 				}
 				servers = append(servers, sc)
 			}
+			// fixture for the timed scripts: idle_timeout: 1 (second), default limit
+			p := c13FreePort()
+			c13t.ports[proto+"idle"] = p
+			sc := router.ServerConfig{Tag: proto + "idle", Protocol: proto, Listen: "127.0.0.1:" + strconv.Itoa(p), IdleTimeout: c13IdleSec}
+			if proto == "tls" {
+				sc.Tls.DebugUseTempCert = true
+			}
+			servers = append(servers, sc)
 		}
 		c13t.vr, c13t.up, err = c13TryStartRouter(servers)
 		if err == nil {
@@ -140,6 +148,9 @@ func c13WaitFor(d time.Duration, cond func() bool) bool {
 // c13TcpRun: real-time steps get a retry (a loaded machine may reorder a handler's bookkeeping and the
 // client's next query in ping-pong mode, or make a wait expire); a genuinely wrong outcome repeats.
 func c13TcpRun(cs string) string {
+	if kv(cs)["hold"] == "4" {
+		return c13TimedRun(cs)
+	}
 	res := c13TcpOnce(cs, 0)
 	for try := 1; try <= 2 && (strings.Contains(res, "stall=1") || (kv(cs)["hold"] == "2" && strings.Contains(res, "r"))); try++ {
 		time.Sleep(20 * time.Millisecond)
@@ -333,6 +344,7 @@ func c13TcpOnce(cs string, try int) string {
 }
 
 func c13TcpGen(r *rand.Rand, thorough bool, emit func(c, cat string)) {
+	c13TimedGen(r, thorough, emit)
 	n := 16
 	if thorough {
 		n = 300
